@@ -11,14 +11,14 @@ RULE = ('One case = one host (real LinuxAppEnvironment / RuleMgr / EndpointsMgr 
         'IP sets created by the real iptables.ipsets_ensure_exist on a kernel model, foreign rule files / endpoint specs / '
         'set entries of other containers pre-seeded, among them an older generation of an instance of the history) and a '
         'random history over 2-4 containers: manifests drawn inside etc/schema/app.json (0-5 [thorough 0-8] tcp/udp endpoints, '
-        'type infra, port 0, duplicate ports/names, ephemeral tcp/udp ports, passthrough host names and literals with aliases, '
+        'type infra, port 0, duplicate ports/names, ephemeral tcp/udp ports, passthrough host names and literals with aliases, in 30% of the lists an IPv4 literal with zero-padded octets, '
         'vring on/off, shared or private network, shared_ip, all four environments), written as event files and normalised by '
         'the real appcfg.configure.load_runtime_manifest (manifest.load + LinuxRuntime.manifest); in 60% of the cases two '
         'containers carry the SAME instance name with different unique ids. Operations interleave randomly: start (network '
         'request, real allocate_network_ports on a loopback address, real save_app, real _run._unshare_network; 12% are cut by a '
         'process kill or a failing ipset call), finish (real _finish.finish reading state.json back, or load_app_safe + '
         '_cleanup_network directly; 45% of the containers first get one or two finish attempts that are interrupted - a kill at '
-        'a boundary step, a failing ipset / conntrack call, the open(2) of state.json failing once with a transient error, or a kill right after the network request link was removed, which '
+        'a boundary step, a failing ipset / conntrack call, the open(2) of state.json or of the reply.yml of the network request failing once with a transient error (ENFILE / EIO; the attempt counts as failed when it ends with an exception and is run again as the cleanup supervisor does, an attempt that RETURNS is judged as a completed finish), or a kill right after the network request link was removed, which '
         'lets the network service hand the VIP (lowest free address, as VipMgr does) to the next container - while other '
         'containers start and finish in between, then the complete run - 15% of these while the restarted network service re-processes that very request (the real ResourceService._on_created around the daemon stand-in; the finish runs inside on_create_request); followed by 0-2 immediate repeats), and late repeats of '
         'the finish of already finished containers (after their VIP has been handed to a newer container). Oracle (snapshot arithmetic over rules/, endpoints/ and the IP-set model, '
@@ -41,7 +41,8 @@ ASSUMPTIONS = [
     'plugin_manager.load/load_all replaced (no entry points in the sandbox): runtime linux -> LinuxRuntime, firewall plugin '
     'absent (KeyError) or a recording no-op plugin, no app hooks',
     'socket.gethostbyname replaced by a fixed table that is the same at start and at finish (the source carries a FIXME about '
-    'resolver instability; that is environmental, not a manifest)',
+    'resolver instability; that is environmental, not a manifest); numeric input is parsed with inet_aton and answered in '
+    'canonical dotted-quad form, as libc\'s gethostbyname does',
     'rrdutils.flush_noexc (unix socket of the rrd daemon) replaced by a no-op',
     'half of the private-network containers are started by the whole treadmill.runtime.linux._run.run(): the cgroup / localdisk / '
     'presence resource services answer at once (the network daemon answers while the container waits for its cgroups), '
@@ -73,6 +74,7 @@ REQUIRED_REACH = {'*': [
     'delta_rule_passthrough', 'delta_endpoint_spec', 'delta_ipset_vring', 'delta_ipset_infra_endpoint_tcp',
     'delta_ipset_infra_endpoint_udp', 'delta_ipset_infra_ephemeral_tcp', 'delta_ipset_infra_ephemeral_udp',
     'manifest_port0_endpoint', 'manifest_infra_endpoint', 'manifest_shared_network', 'manifest_vring',
+    'finish_checked_zero_padded_passthrough_literal', 'finish_reply_read_fault_injected',
 ]}
 
 # probability that a passthrough list names a host that does not resolve (start aborts, finish must still clean up)
@@ -134,6 +136,18 @@ def _check_ports(ctx, c, containers, case):
                               '%s ports %s recorded for two live containers' % (proto, sorted(both)),
                               witness=dict(containers=[c.idx, o.idx], ports=sorted(both)), case=case)
     ctx.count('port_checks')
+
+
+def _padded_literals(manifest):
+    """Passthrough entries that are IPv4 literals not written in canonical dotted-quad form."""
+    out = []
+    for h in (manifest or {}).get('passthrough', []) or []:
+        try:
+            if h.count('.') == 3 and socket.inet_ntoa(socket.inet_aton(h)) != h:
+                out.append(h)
+        except OSError:
+            pass
+    return out
 
 
 def _check_rule_names(ctx, delta, case):
@@ -253,6 +267,8 @@ def _run_op(ctx, host, containers, op, initial, case, flags):
             ctx.count('manifest_vring')
         if m['passthrough']:
             ctx.count('manifest_passthrough')
+        if _padded_literals(m):
+            ctx.count('manifest_passthrough_zero_padded_literal')
         if c.unresolvable:
             ctx.count('manifest_unresolvable_passthrough_host')
         cut = None
@@ -302,7 +318,7 @@ def _run_op(ctx, host, containers, op, initial, case, flags):
         cut = None
         if op['cut'] is not None:
             kind, arg = op['cut']
-            if kind in ('kill_at', 'ioerror'):
+            if kind in ('kill_at', 'ioerror', 'ioerror_reply'):
                 cut = (kind, arg)
             else:
                 n = gen.estimate_steps(c.manifest, len(c.manifest['passthrough']))
@@ -323,6 +339,11 @@ def _run_op(ctx, host, containers, op, initial, case, flags):
             status = _driven(ctx, lambda: host.finish(c, op['via'], cut), 'finish', case,
                              witness=_finish_witness(host, c))
         after = host.snapshot()
+        if host.io_faults_injected.pop('reply.yml', 0):
+            ctx.count('finish_reply_read_fault_injected')
+            if status != 'interrupted':
+                ctx.count('finish_returned_after_reply_read_fault')
+        host.io_faults_injected.clear()
         complete = status != 'interrupted'
         suffix = ''
         if not complete:
@@ -350,6 +371,8 @@ def _run_op(ctx, host, containers, op, initial, case, flags):
             return
         ctx.count('finishes_checked')
         ctx.count('finish_via_%s' % op['via'])
+        if _padded_literals(c.manifest) and any(oracle.label(i, None) == 'rule-passthrough' for i in c.delta):
+            ctx.count('finish_checked_zero_padded_passthrough_literal')
         if c.interrupted_finishes:
             ctx.count('resumed_finish_checked')
         if aborted:
